@@ -806,10 +806,11 @@ func (db *Default) ProfileByHumanID(
 		return nil, nil, fmt.Errorf("%s: %w", errPrefix, err)
 	}
 
-	if humanID != d.HumanIDLower {
+	if humanID != d.HumanIDLower || p.ID != id {
 		// Perhaps, the device has changed its human ID, for example by being
-		// transformed into a normal device..  Remove it from our profile DB in
-		// a goroutine, since that requires a write lock.
+		// transformed into a normal device, or has been moved to another
+		// profile.  Remove it from our profile DB in a goroutine, since that
+		// requires a write lock.
 		go db.removeHumanID(ctx, k)
 
 		return nil, nil, fmt.Errorf("%s: rechecking human id: %w", errPrefix, ErrDeviceNotFound)
